@@ -381,6 +381,22 @@ def replay(ctx, rep):
     _libs()
     IC.quiet()
     r = rep["replay"]
+    if r.get("kind") == "purity":
+        lib = IC.Library()
+        cls = [c for key, (c, own) in lib.classes.items() if c.__name__ == r["class"]][0]
+        f, v, b = IC.factory_for_class(cls), IC.vof(r["version"]), bytes.fromhex(r["hex"])
+        d1, _ = IC.dec(f, b, v)
+        for q in r["poisons"]:
+            try:
+                IC.dec(f, bytes.fromhex(q), v)
+            except BaseException:
+                pass
+        try:
+            d2, _ = IC.dec(f, b, v)
+        except Exception as e:
+            print("  refused the second time: %s: %s" % (type(e).__name__, e))
+            return False
+        return not IC.diff(d1, d2)
     if r.get("kind") == "prim":
         c = _prim_from_replay(r)
         res, o = CC.run_prim_impl(c)
